@@ -257,27 +257,29 @@ theorem nameWith_fresh (fc : Facts) (hf : C03.FactsOK fc) (x : Ext) (o : Opts) (
   obtain ⟨mangled, _, h⟩ := bind_eq_ok.1 h
   obtain ⟨⟨newName, isOAIGen⟩, hu, h⟩ := bind_eq_ok.1 h
   obtain ⟨ref, _, h⟩ := bind_eq_ok.1 h
-  obtain ⟨d1, h1, h⟩ := bind_eq_ok.1 h
+  obtain ⟨d0, h1, h⟩ := bind_eq_ok.1 h
   obtain ⟨d2, h2, h⟩ := bind_eq_ok.1 h
   simp only [pure_eq_ok] at h
   subst h
-  have e1 : defNames d1 = defNames st.doc := rewriteSchemaToRef_defNames _ _ _ _ h1
-  have e2 : defNames d2 = defNames st.doc := by
-    have := foldlM_inv (fun d => defNames d = defNames st.doc) _ ?_ _ d1 d2 e1 h2
+  have e1 : defNames d0 = defNames st.doc := rewriteSchemaToRef_defNames _ _ _ _ h1
+  have hfresh := uniqify_fresh fc hf x (Flatten.defNames st.doc) mangled (newName, isOAIGen) hu
+  have hnot : newName ∉ defNames d0 := by
+    rw [e1]; intro hm; exact hfresh newName hm rfl
+  have e2 : defNames d2 = defNames (save d0 newName (schema.set "x-go-gen-location" (.str (genLocation parts)))) := by
+    have := foldlM_inv (fun d => defNames d =
+      defNames (save d0 newName (schema.set "x-go-gen-location" (.str (genLocation parts))))) _ ?_ _ _ d2 rfl h2
     · exact this
     intro d kv d' hd hstep
     obtain ⟨r, _, hstep⟩ := bind_eq_ok.1 hstep
     split at hstep
     · simp only [pure_eq_ok] at hstep; exact hstep ▸ hd
     · rw [updateRef_defNames _ _ _ _ hstep]; exact hd
-  have hfresh := uniqify_fresh fc hf x (Flatten.defNames st.doc) mangled (newName, isOAIGen) hu
-  have hnot : newName ∉ defNames d2 := by
-    rw [e2]; intro hm; exact hfresh newName hm rfl
-  show FreshExt (foldOf x) (defNames st.doc) (defNames (save d2 newName _))
-  rcases save_defNames d2 newName (schema.set "x-go-gen-location" (.str (genLocation parts))) hnot with hs | hs
-  · rw [hs, e2]
+  show FreshExt (foldOf x) (defNames st.doc) (defNames d2)
+  rw [e2]
+  rcases save_defNames d0 newName (schema.set "x-go-gen-location" (.str (genLocation parts))) hnot with hs | hs
+  · rw [hs, e1]
     exact FreshExt.snoc newName (FreshExt.refl _) hfresh
-  · rw [hs, e2]; exact FreshExt.refl _
+  · rw [hs, e1]; exact FreshExt.refl _
 
 theorem nameSchema_fresh (fc : Facts) (hf : C03.FactsOK fc) (x : Ext) (o : Opts) (ops : List (String × OpRef))
     (st : St) (key : String) (schema : J) (fl : Classify.Flags) (st' : St)
